@@ -168,7 +168,7 @@ let handle (line:string) : string =
       let g = ch && eq_guard_run (bits vflags 3) c (nat_of_int (int_of_string fuel)) l_pristine x_init
                       (List.map (fun e -> bytes_of_hex (atom e)) evs) in
       let es = List.map (fun e -> bytes_of_hex (atom e)) evs in
-      let chh = eq_chartb_hist c in
+      let chh = eq_chartb_histp c in   (* fast_large_run_equiv_histp: subsumes eq_chartb_hist (histories below <parallel> too) *)
       let gh = chh && eq_guard_run_hist (bits vflags 3) c (nat_of_int (int_of_string fuel)) l_pristine x_init es in
       b2s ch ^ b2s g ^ b2s chh ^ b2s gh
   | Atom "runguard" :: Atom late :: Atom fuel :: tree :: L evs :: _ ->
